@@ -17,6 +17,7 @@ struct PmrCfg {
 	static constexpr bool serialization = false;
 	static constexpr bool mpi = false;
 	static constexpr bool default_init = false;
+	static constexpr bool always_equal = false;
 	static auto make_alloc(int arena) -> alloc { return alloc{&pmr_res(arena)}; }
 	static int  arena_of(alloc const& a) {
 		for(int i = 0; i < World::NARENA; ++i)
